@@ -185,6 +185,7 @@ func (v *Verifier) evalAxioms() []string {
 
 // closedFormula evaluates a lemma/axiom body, universally closing its declared variables.
 func (v *Verifier) closedFormula(t *tr, d *SpecDecl) Term {
+	guard := d.Kind == "lemma" // lemmas are proved for in-range values; axioms are stated for all values
 	pkg := v.Pkgs[d.PkgPath]
 	sc := &specCtx{pkg: pkg, vars: map[string]Term{}, cur: Env{}, old: Env{}, qn: t.qn(), where: d.Where}
 	var bvs []Term
@@ -198,7 +199,9 @@ func (v *Verifier) closedFormula(t *tr, d *SpecDecl) Term {
 		bv := Term{S: sym(p.Name + "$v"), Sort: v.W.sortOf(T), T: T}
 		sc.vars[p.Name] = bv
 		bvs = append(bvs, bv)
-		invs = append(invs, t.typeInv(bv, T, Env{}))
+		if guard {
+			invs = append(invs, t.typeInv(bv, T, Env{}))
+		}
 	}
 	body := t.spec(d.Expr, sc)
 	return forallT(bvs, implies(and(invs...), body))
